@@ -242,13 +242,15 @@ func r3C09(c *Ctx) {
 		if !types.Identical(fn.Signature.Results().At(1).Type(), types.Universe.Lookup("error").Type()) {
 			continue
 		}
-		for _, ret := range returnsOf(fn) {
+		// path by path: a single-exit form returns result variables
+		for _, r := range WalkCP(Entry(fn), nil, IsReturn, ReachOpts{}) {
+			ret := r.Instr.(*ssa.Return)
 			if len(ret.Results) != 2 {
 				continue
 			}
-			k0, ok0 := ret.Results[0].(*ssa.Const)
-			k1, ok1 := ret.Results[1].(*ssa.Const)
-			if ok0 && ok1 && k0.IsNil() && k1.IsNil() {
+			v0, ok0 := ResolveConst(ret.Results[0], r.Env)
+			v1, ok1 := ResolveConst(ret.Results[1], r.Env)
+			if ok0 && ok1 && v0 == "nil" && v1 == "nil" {
 				nilable[fn] = true
 			}
 		}
